@@ -3,6 +3,7 @@ package main
 import (
 	"fmt"
 	"math"
+	"strconv"
 
 	"github.com/tidwall/geojson"
 	"github.com/tidwall/geojson/geometry"
@@ -211,6 +212,18 @@ func buildObjPool(size int) *objPool {
 			f1 := p.add(geojson.NewFeature(geojson.NewPoint(q), ""), "Feature", nil)
 			p.equiv(b, a)
 			p.equiv(f1, a)
+			// wrappers stacked on the argument side: a Feature of a Feature, and a
+			// parsed Feature whose "geometry" is a Feature of a Feature
+			f2 := p.add(geojson.NewFeature(geojson.NewFeature(geojson.NewPoint(q), ""), `{"id":2}`), "Feature", nil)
+			p.equiv(f2, a)
+			f3d := fmt.Sprintf(`{"type":"Feature","geometry":{"type":"Feature","geometry":{"type":"Feature","geometry":{"type":"Point","coordinates":[%s,%s]},"properties":{}},"properties":null},"id":3}`,
+				strconv.FormatFloat(q.X, 'g', -1, 64), strconv.FormatFloat(q.Y, 'g', -1, 64))
+			f3o, err := geojson.Parse(f3d, &geojson.ParseOptions{AllowSimplePoints: true})
+			if err != nil {
+				panic(err)
+			}
+			f3 := p.add(f3o, "Feature", nil)
+			p.equiv(f3, a)
 			p.add(geojson.NewMultiPoint([]geometry.Point{q}), "MultiPoint", nil)
 			p.add(geojson.NewGeometryCollection([]geojson.Object{geojson.NewPoint(q)}), "GeometryCollection", nil)
 			p.add(geojson.NewFeatureCollection([]geojson.Object{geojson.NewFeature(geojson.NewSimplePoint(q), "")}), "FeatureCollection", nil)
